@@ -16,7 +16,7 @@ from numpy.lib.mixins import NDArrayOperatorsMixin
 
 from .ctx import EngineError, cur
 from .poly import Poly
-from .scalars import Rel, Sym, lift, sym_abs, _is_nan, _is_cnan
+from .scalars import Rel, Sym, SymFloat, SymInt, lift, sym_abs, _is_nan, _is_cnan
 
 F64 = np.dtype("float64")
 C128 = np.dtype("complex128")
@@ -66,6 +66,10 @@ def obj(x) -> np.ndarray:
     if isinstance(x, (Sym, Rel)):
         r = np.empty((), dtype=object)
         r[()] = x
+        return r
+    if isinstance(x, (SymFloat, SymInt)):
+        r = np.empty((), dtype=object)
+        r[()] = x.sym
         return r
     return np.asarray(x).astype(object)
 
